@@ -696,6 +696,7 @@ static int custom_sink(REPROC_STREAM stream, const uint8_t *buf, size_t size, vo
 typedef struct {
   csink cs[2];
   char *str[2];
+  char *orig[2];
   long pre[2];
   reproc_sink sk[2];
   char spec[2][32];
@@ -717,6 +718,7 @@ static void sinks_setup(sinkset *ss, child_t *c, const char *so, const char *se)
         ss->str[i] = malloc((size_t) ss->pre[i] + 1);  // plain malloc: the library reallocs it
         memset(ss->str[i], 'p', (size_t) ss->pre[i]);
         ss->str[i][ss->pre[i]] = 0;
+        ss->orig[i] = ss->str[i];
       }
       ss->sk[i] = reproc_sink_string(&ss->str[i]);
     } else if (sp[0] == 'c') {
@@ -752,7 +754,12 @@ static void sinks_result(sinkset *ss, child_t *c, char *sres, size_t cap)
     snprintf(b, sizeof b, "%s[%d,%ld,%ld,%lld]", sres[0] ? "," : "", i, ss->pre[i], len, bad);
     if (strlen(sres) + strlen(b) + 1 < cap) strcat(sres, b);
     if (len > ss->pre[i]) c->rdoff[i + 1] += (uint64_t) (len - ss->pre[i]);
-    ss->str[i] = reproc_free(ss->str[i]);
+    if (ss->str[i] && ss->str[i] == ss->orig[i]) {
+      free(ss->str[i]);  // never grown by the library: still the caller's own allocation
+      ss->str[i] = NULL;
+    } else {
+      ss->str[i] = reproc_free(ss->str[i]);
+    }
   }
 }
 
